@@ -3,17 +3,12 @@ package engine
 import (
 	"fmt"
 	"sort"
+
+	"verifsim/work"
 )
 
 // Violation is one oracle verdict against a run.
-type Violation struct {
-	Prop   string `json:"prop"`
-	Oracle string `json:"oracle"` // which oracle fired
-	Class  string `json:"class"`  // narrow class used for known-finding signatures
-	Msg    string `json:"msg"`
-	Key    string `json:"key,omitempty"`
-	Seq    int    `json:"seq,omitempty"`
-}
+type Violation = work.Violation
 
 type mval struct {
 	id      string
